@@ -80,25 +80,36 @@ def stress_plan(rng, tier):
     16 no initial padding."""
     q = tier == "quick"
     sd = lambda: rng.randrange(1, 1 << 30)
+    if q:
+        # quick: few, short runs (the obligations are the proof part; this is a smoke exploration). 4 = kFillUnusedMemory.
+        return [
+            ("alloc", sd(), 2, 20000, 4),
+            ("alloc", sd(), 8, 8000, 4 | 2),
+            ("alloc", sd(), 16, 4000, 8),
+            ("alloc", sd(), 4, 10000, 1 | 4),
+            ("runtime", sd(), 4, 4000, 4),
+            ("runtime", sd(), 8, 2000, 0),
+            ("codegen", sd(), 4, 200, 0),
+            ("codegen", sd(), 8, 100, 0),
+        ]
     plan = [
-        ("alloc", sd(), 2, 30000 if q else 300000, 0),
-        ("alloc", sd(), 4, 20000 if q else 200000, 2),
-        ("alloc", sd(), 8, 12000 if q else 120000, 4 | 2),
-        ("alloc", sd(), 16, 6000 if q else 60000, 8),
-        ("alloc", sd(), 4, 15000 if q else 150000, 1 | 4),
-        ("alloc", sd(), 8, 10000 if q else 100000, 16 | 8 | 2),
-        ("alloc", sd(), 3, 15000 if q else 150000, 0),
-        ("runtime", sd(), 4, 6000 if q else 60000, 0),
-        ("runtime", sd(), 8, 3000 if q else 30000, 4),
-        ("runtime", sd(), 16, 1500 if q else 15000, 1),
-        ("codegen", sd(), 4, 400 if q else 4000, 0),
-        ("codegen", sd(), 8, 200 if q else 2000, 0),
-        ("codegen", sd(), 16, 100 if q else 1000, 0),
+        ("alloc", sd(), 2, 300000, 0),
+        ("alloc", sd(), 4, 200000, 2),
+        ("alloc", sd(), 8, 120000, 4 | 2),
+        ("alloc", sd(), 16, 60000, 8),
+        ("alloc", sd(), 4, 150000, 1 | 4),
+        ("alloc", sd(), 8, 100000, 16 | 8 | 2),
+        ("alloc", sd(), 3, 150000, 4),
+        ("runtime", sd(), 4, 60000, 0),
+        ("runtime", sd(), 8, 30000, 4),
+        ("runtime", sd(), 16, 15000, 1),
+        ("codegen", sd(), 4, 4000, 0),
+        ("codegen", sd(), 8, 2000, 0),
+        ("codegen", sd(), 16, 1000, 0),
     ]
-    if not q:
-        for rep in range(12):
-            plan.append(("alloc", sd(), rng.choice([2, 3, 5, 8, 12, 16]), 100000, rng.choice([0, 1, 2, 4, 6, 8, 10, 16, 22])))
-            plan.append(("runtime", sd(), rng.choice([2, 4, 8, 16]), 20000, rng.choice([0, 2, 4, 8])))
+    for rep in range(12):
+        plan.append(("alloc", sd(), rng.choice([2, 3, 5, 8, 12, 16]), 100000, rng.choice([0, 1, 2, 4, 6, 8, 10, 16, 22])))
+        plan.append(("runtime", sd(), rng.choice([2, 4, 8, 16]), 20000, rng.choice([0, 2, 4, 8])))
     return plan
 
 
@@ -134,6 +145,29 @@ def tsan_reports(err):
     return reps
 
 
+def regen_own(ck, files):
+    """Translator tie, own variant of vlib.Check.coq_regen (which recompiles EVERY file of coq/gen, minutes once all properties are
+    merged): Properties_C11.v imports only VerifGen.LockSkeleton and VerifGen.WritableGlobals, so only these two are written to a
+    scratch directory and recompiled there. None if identical to the committed snapshot, else (gen_dir, failed_files, log)."""
+    import shutil
+    gen = os.path.join(vlib.COQ, "gen")
+    if all(os.path.exists(os.path.join(gen, n)) and open(os.path.join(gen, n)).read() == t for n, t in files.items()):
+        return None
+    wgen = os.path.join(ck.work, "gen")
+    shutil.rmtree(wgen, ignore_errors=True)
+    os.makedirs(wgen)
+    ck.coq_make(["theories/Conc/LockModel.vo"])
+    failed, log = [], ""
+    for n, t in files.items():
+        open(os.path.join(wgen, n), "w").write(t)
+        rc, out, err = vlib.sh(["coqc", "-Q", os.path.join(vlib.COQ, "theories"), "Verif", "-Q", wgen, "VerifGen", "-w", "-all",
+                                os.path.join(wgen, n)], cwd=wgen, timeout=900)
+        if rc != 0:
+            failed.append(n)
+            log += (out + err)[-3000:]
+    return wgen, failed, log
+
+
 def run(ck):
     rng = random.Random(ck.seed)
     if ck.replay:
@@ -147,7 +181,7 @@ def run(ck):
     if sk_info["untranslated_nodes"]:
         # a defect of the checking machinery, not a verdict: the traversal skipped evaluated member accesses / calls
         raise RuntimeError("c11_skeleton.py did not translate some member accesses / calls: %s" % sk_info["untranslated_nodes"])
-    r = ck.coq_regen({"LockSkeleton.v": sk_text, "WritableGlobals.v": gl_text})
+    r = regen_own(ck, {"LockSkeleton.v": sk_text, "WritableGlobals.v": gl_text})
     gen_dir, gen_failed, diags = None, [], {}
     if r is None:
         ck.log("translator: regenerated skeleton + globals identical to the committed snapshot (%d entry points)" % len(sk_info["entry_points"]))
@@ -203,6 +237,16 @@ def run(ck):
             explored_bad = True
             ck.violation("C11/harness/%s-crash" % mode, "harness %s rc=%d: %s" % (cfg, rc, (out[-300:] + err[-1500:])), dict(rp, stderr=err[-4000:]))
 
+    # ---------------------------------------------------------------- cold start: OUTSIDE the premise, documented only (never a violation)
+    cold = {"runs": 0, "tsan_reports": 0, "racing_functions": [], "mismatches": 0}
+    for rep in range(2 if ck.tier == "quick" else 12):
+        _, rc, out, err = run_one(exe, ("coldstart", rng.randrange(1, 1 << 30), 16, 0, 0), 120)
+        cold["runs"] += 1
+        reps = tsan_reports(err)
+        cold["tsan_reports"] += len(reps)
+        cold["racing_functions"] = sorted(set(cold["racing_functions"]) | set(r["function"] for r in reps))
+        cold["mismatches"] += len([l for l in out.splitlines() if l.startswith("MISMATCH")])
+
     # ---------------------------------------------------------------- obligations that broke without an exhibited schedule
     for kind, thm in (("check_program", "C11_all_shared_access_locked"), ("coverage_diag", "C11_skeleton_coverage"), ("check_globals", "C11_no_shared_mutable_globals")):
         for d in ([] if explored_bad else diags.get(kind, [])):
@@ -242,7 +286,10 @@ def run(ck):
          "exploration": {"label": "EXPLORATION, not an obligation: schedules are sampled by the OS scheduler under ThreadSanitizer",
                          "stress_runs": len(plan), "stress_operations": ops_total, "tsan_reports": tsan_total,
                          "thread_counts": sorted(set(c[2] for c in plan)), "allocator_option_masks": sorted(set(c[4] for c in plan if c[0] != "codegen")),
-                         "summaries": lines}},
+                         "summaries": lines},
+         "cold_start_outside_premise": dict(cold, note="threads whose first AsmJit call constructs a JitRuntime: CpuInfo::host()/VirtMem::info() initialise "
+                                                        "concurrently; excluded by the premise 'once the host information has been initialised'; reports here are "
+                                                        "recorded, never counted as violations")},
         assumptions=["theorems are about the mutex model (one lock, sequentially consistent shared cells keyed by object and member); the step from the "
                      "lock skeleton to the C++ memory model / pthread mutex semantics is trusted and only probed by ThreadSanitizer",
                      "tools/c11_skeleton.py is trusted to see every MemberExpr / LockGuard / call of the entry points (clang 14 AST); accesses through "
